@@ -19,7 +19,7 @@ def run(ctx):
     ctx.model("Tables.tla constant relations (ASSUME)", r)
     r = tlc.run_tlc("ImagePixel", workers=16, constants=dict(MaxC=3, MaxW=2) if quick else dict(MaxC=4, MaxW=3), invariants=["InclusionExclusionIsMass", "Additive", "NonNegativeAtMostOne"], heap="6g")
     ctx.model("ImagePixel: corner inclusion-exclusion of the box CDF = overlap mass, additive over a pixel grid, within [0,1]", r)
-    imgs.run(ctx, "C04", 150 if quick else 1500, 0)
+    imgs.run(ctx, "C04", 150 if quick else 1500, 12 if quick else 100)    # the first cases also go through the n_jobs branch (incl. skew=False)
 
 
 def replay(ctx, rec):
